@@ -10,6 +10,8 @@ pub mod c11;
 pub mod c12;
 pub mod c13;
 pub mod c14;
+pub mod c16;
+pub mod c17;
 pub mod c18;
 pub mod degenerate;
 
@@ -209,6 +211,21 @@ pub fn explorer_plan(prop: &str) -> Option<Plan> {
                 required: &["badlen_rejected", "append_refused", "append_ok", "append_twin_compared", "del_absent", "rejected_dumps_compared"],
                 custom_gen: None,
                 rule: "case = explorer history with wrong-length add/append/search, appends relative to the current maximum key over several indexes, and deletes of absent ids; the raw dump before and after every rejected call must be identical, error variants and fields exact, a valid append byte-identical to add_item; non-trivial+distinct = distinct forest shapes with splits",
+            }
+        }
+        "C16" => {
+            p.checks = Checks { decode: true, accuracy: true, ..Default::default() };
+            p.n_indexes = (1, 3);
+            p.rounds = (1, 4);
+            p.max_items = 200;
+            p.change_metric = true;
+            p.values = vec![Values::Grid, Values::Uniform, Values::AllBits];
+            Plan {
+                profile: p,
+                cases: (3000, 60000),
+                required: &["dumps_decoded", "entries_decoded", "forests_with_splits", "forests_with_item_children"],
+                custom_gen: None,
+                rule: "backward direction: case = explorer history over 1-3 indexes (all metrics, metric changes, all-bit-pattern values); every raw dump taken after a successful build must parse under the harness's reference decoder of the documented layout (keys, node tags, child kinds, leaf header + vector sizes at the declared dimension, roaring buckets, metadata, version record, key order); non-trivial+distinct = distinct forest shapes with splits",
             }
         }
         "C18" => {
